@@ -540,6 +540,10 @@ impl World {
         let (mb, ma) = (collect(before), collect(after));
         for (k, a) in ma.iter() { if let Some(b) = mb.get(k) {
             let mut b2 = b.clone(); let mut a2 = a.clone(); b2["epoch"] = Value::Null; a2["epoch"] = Value::Null;
+            if a2 != b2 && a["epoch"].as_u64() > Some(bstore.global_epoch) && a["epoch"].as_u64() <= b["epoch"].as_u64() {
+                // the epoch counter itself may have been left behind by an earlier step: compare with the record's own old epoch
+                self.fail(format!("C06: migration {} changed its addresses but its epoch did not grow ({} -> {})", k, b["epoch"], a["epoch"]), "");
+            }
             if a2 != b2 && a["epoch"].as_u64() <= Some(bstore.global_epoch) {
                 // replacement of the *failed* side always changes addresses; the epoch must be fresh
                 // F2: the chunk was already in First/SecondChunkMaster (earlier failover of the partner, no rebalance)
